@@ -5,6 +5,8 @@
 mod common;
 mod corpus;
 mod c02;
+mod c03;
+mod c04;
 mod c10;
 mod c14;
 mod c19;
@@ -20,6 +22,8 @@ fn main() {
     let rest = &args[2..];
     match (args[0].as_str(), args[1].as_str()) {
         ("C02", "drive") => c02::drive(rest),
+        ("C03", "drive") => c03::drive(rest),
+        ("C04", "drive") => c04::drive(rest),
         ("C10", "replay") => c10::replay(rest),
         ("C10", "drive") => c10::drive(rest),
         ("C14", "replay") => c14::replay(rest),
